@@ -162,6 +162,9 @@ func (x *Xlat) havocRegion(st *State, key string) {
 		x.ctx.constAxioms[v.Op] = append(x.ctx.constAxioms[v.Op], Forall([]Bind{{"a!", ks}}, Imp(Sel(before, b), Sel(v, b)), []*Term{Sel(before, b)}, []*Term{Sel(v, b)}))
 	}
 	st.env[key] = v
+	if x.lock != nil && x.lockHavocOK {
+		x.lockCouple(v)
+	}
 }
 
 // regionSort finds the sort of a region from the registry filled by the effects analysis / first use.
@@ -645,6 +648,8 @@ func (x *Xlat) appendOne(st *State, s *Term, v *Term, et types.Type) *Term {
 	i := Const("i!", SInt)
 	st.assume(Forall([]Bind{{"i!", SInt}}, Imp(And(App("<=", SBool, IntLit(0), i), App("<", SBool, i, SLen(s))),
 		Eq(Sel(fresh, i), Sel(Sel(h, SArr(s)), App("+", SInt, SOff(s), i))))))
+	// a freshly allocated array is zeroed beyond what is copied into it
+	st.assume(Forall([]Bind{{"i!", SInt}}, Imp(Or(App("<", SBool, i, IntLit(0)), App(">=", SBool, i, SLen(s))), Eq(Sel(fresh, i), x.tm.Zero(et)))))
 	if len(v.Args) > 0 {
 		v = x.ctx.Define("apv", v)
 	}
@@ -695,6 +700,8 @@ func (x *Xlat) appendSlice(st *State, s, o *Term, et types.Type) *Term {
 	// prefix preserved
 	st.assume(Forall([]Bind{{"i!", SInt}}, Imp(And(App("<=", SBool, IntLit(0), i), App("<", SBool, i, SLen(s))),
 		Eq(Sel(resArr, App("+", SInt, baseOff, i)), Sel(oldInner, App("+", SInt, SOff(s), i))))))
+	// fresh array: zero outside the copied range
+	st.assume(Imp(Not(inPlace), Forall([]Bind{{"i!", SInt}}, Imp(Or(App("<", SBool, i, IntLit(0)), App(">=", SBool, i, total)), Eq(Sel(resArr, i), x.tm.Zero(et))))))
 	// in place: everything outside the written window is unchanged
 	st.assume(Imp(inPlace, Forall([]Bind{{"i!", SInt}}, Imp(Or(App("<", SBool, i, App("+", SInt, SOff(s), SLen(s))), App(">=", SBool, i, App("+", SInt, SOff(s), total))),
 		Eq(Sel(resArr, i), Sel(oldInner, i))))))
@@ -935,6 +942,13 @@ func (x *Xlat) runInlined(st *State, fr2 *Frame, out *Outcomes, info *types.Info
 // callHavoc approximates a call by havocking everything the callee may write.
 func (x *Xlat) callHavoc(st *State, fr *Frame, out *Outcomes, fi *FuncInfo, args []Arg, pos token.Pos) []*Term {
 	x.havoced[fi.Key] = true
+	if x.lock != nil {
+		x.lockCall(st, fi, args, pos)
+		if x.lock.funcs[fi.Key] {
+			x.lockHavocOK = true
+			defer func() { x.lockHavocOK = false }()
+		}
+	}
 	ef := x.eff.Of(fi)
 	for _, k := range sortedKeys(ef.regions) {
 		x.havocRegion(st, k)
@@ -955,6 +969,9 @@ func (x *Xlat) callHavoc(st *State, fr *Frame, out *Outcomes, fi *FuncInfo, args
 	sig := fi.Obj.Type().(*types.Signature)
 	for i := 0; i < sig.Results().Len(); i++ {
 		rs = append(rs, x.freshTyped(st, "ret$"+fi.Obj.Name(), sig.Results().At(i).Type()))
+		if x.lock != nil && x.lock.funcs[fi.Key] {
+			x.lockCouple(rs[i])
+		}
 	}
 	return rs
 }
@@ -1000,6 +1017,13 @@ func (x *Xlat) callContract(st *State, fr *Frame, out *Outcomes, fi *FuncInfo, a
 	x.used[fi.Key] = true
 	spec := fi.Spec
 	ps := x.paramVars(fi)
+	if x.lock != nil {
+		x.lockCall(st, fi, args, pos)
+		if x.lock.funcs[fi.Key] {
+			x.lockHavocOK = true
+			defer func() { x.lockHavocOK = false }()
+		}
+	}
 	sig := fi.Obj.Type().(*types.Signature)
 	env := x.newSpecEnv(st, nil, fi.Pkg.Types)
 	for i, p := range ps {
@@ -1034,6 +1058,9 @@ func (x *Xlat) callContract(st *State, fr *Frame, out *Outcomes, fi *FuncInfo, a
 		}
 	}
 	for i, r := range spec.Requires {
+		if !r.inView(x.view) {
+			continue
+		}
 		g := env.evalBool(r.Expr)
 		name := fmt.Sprintf("%s/call.pre.%s.%d#%d", x.curFunc, fi.Key, i+1, x.bump("call."+fi.Key+fmt.Sprint(i)))
 		x.emit(st, name, "call.pre", g, pos, "precondition of "+fi.Key+": "+r.Text)
@@ -1084,6 +1111,9 @@ func (x *Xlat) callContract(st *State, fr *Frame, out *Outcomes, fi *FuncInfo, a
 	var rs []*Term
 	for i := 0; i < sig.Results().Len(); i++ {
 		rs = append(rs, x.freshTyped(st, "ret$"+fi.Obj.Name(), sig.Results().At(i).Type()))
+		if x.lock != nil && x.lock.funcs[fi.Key] {
+			x.lockCouple(rs[i])
+		}
 	}
 	if x.trackPanic && !spec.NoPanic {
 		out.pan = x.merge(out.pan, st.clone())
@@ -1297,5 +1327,21 @@ func touchedWindow(s, n *Term) func(t, j *Term) *Term {
 	return func(t, j *Term) *Term {
 		p := App("+", SInt, SOff(t), j)
 		return And(Eq(SArr(t), SArr(s)), App(">=", SBool, p, SOff(s)), App("<", SBool, p, App("+", SInt, SOff(s), n)))
+	}
+}
+
+// lockCall: before a call that is not inlined the whole state and the arguments must be coupled
+// (the callee's relational contract is "coupled in => coupled out").
+func (x *Xlat) lockCall(st *State, fi *FuncInfo, args []Arg, pos token.Pos) {
+	x.lockState(st, x.lockAllKeys(st), "call", pos)
+	for i, a := range args {
+		if a.v == nil {
+			continue
+		}
+		at := x.twin(a.v)
+		if at == a.v {
+			continue
+		}
+		x.lockEmit(st, fmt.Sprintf("%s/lockstep.arg.%s.%d#%d", x.curFunc, fi.Key, i, x.bump("lock.arg")), x.coupPair(a.v, at), pos, fmt.Sprintf("argument %d of %s is coupled", i, fi.Key))
 	}
 }
